@@ -4,6 +4,9 @@ import hashlib, json, os, sys, time, subprocess, textwrap
 VERIF = os.path.dirname(os.path.dirname(os.path.abspath(__file__)))
 # evidence / replays always land in the directory the check is run from (/verif), never in a snapshot of it
 OUT = VERIF
+if os.environ.get('VERIF_REPO') and os.environ.get('VERIF_SEED_OUT'):
+    # development runs against a scratch worktree carrying a seeded change: keep their evidence / replays out of /verif
+    OUT = os.environ['VERIF_SEED_OUT']
 REPO = os.environ.get('VERIF_REPO', '/repo')
 EXIT_OK, EXIT_VIOLATION, EXIT_INCONCLUSIVE = 0, 1, 2
 
